@@ -474,18 +474,26 @@ func replayShrexPath(rep *vh.Report, p *shPlan, pi int, path []shStep, squares [
 		conform, diverged = false, true
 	}
 	defer func() {
-		for _, g := range live {
-			switch g.stage {
-			case "open":
-				g.stream.Reset() //nolint:errcheck
-			case "svc":
-				g.store <- storeAnswer{err: store.ErrNotFound}
-				<-g.done
-			case "held":
-				g.reader <- "served"
-				<-g.done
+		// end every handler wherever it waits (the answers are buffered: a handler in the store ends on
+		// NOT_FOUND, one in the response builder on "served"), then the streams nobody handled
+		rig.store.mu.Lock()
+		for _, g := range rig.store.gates {
+			select {
+			case g.store <- storeAnswer{err: store.ErrNotFound}:
+			default:
+			}
+			select {
+			case g.reader <- "served":
+			default:
 			}
 		}
+		rig.store.mu.Unlock()
+		synctest.Wait()
+		rig.store.mu.Lock()
+		for _, g := range rig.store.gates {
+			g.stream.Reset() //nolint:errcheck
+		}
+		rig.store.mu.Unlock()
 	}()
 	// per-address accounting for the rate monitors: what "burst + rate x window" allows
 	tokens := map[string]float64{}
@@ -762,6 +770,16 @@ func replayShrexPath(rep *vh.Report, p *shPlan, pi int, path []shStep, squares [
 			}
 		}
 		for j := range p.IPs {
+			n := 0
+			for _, g := range live {
+				if g.peer == j+1 && g.stage != "open" {
+					n++
+				}
+			}
+			if n > p.SvcPeerLim {
+				violate(rep, "X_limits/shrex/service-peer/limit-exceeded", fmt.Sprintf("peer %d has %d streams inside the handler (limit %d)", j+1, n, p.SvcPeerLim), where(i))
+				return false
+			}
 			if now.peerMem[j] > p.SvcPeerMem*unit {
 				violate(rep, "X_limits/shrex/service-peer/memory-exceeded", fmt.Sprintf("peer %d holds %d bytes (limit %d)", j+1, now.peerMem[j], p.SvcPeerMem*unit), where(i))
 				return false
